@@ -13,6 +13,9 @@ from common import Quiet, blit, coq_bad, known_open, listlit, optlit, pmap, zlit
 
 SIG_D8 = "skip-last-component-leaks"
 
+TRUSTED_EXTRA = [
+    "harness/py2v.py (fail-closed translator of Scanner.includes / Scanner.is_last from the source under test into coq/Scan/ScanSrc.v) and coq/Scan/PySem.v (CPython's ==, <, and/or, in, len, max, truthiness on int/None/bool/list as a deep embedding with an absorbing error value)",
+]
 SCANS = ["*", "*", "1*", "2*", "1-3", "0-2", "0+2+4", "1-2+4", "3", "0", "3-1", "3+1", "4+0+2", "4+1-2"]      # the last three: a list written out of order
 
 
@@ -211,6 +214,14 @@ def run(ctx):
         ctx.violation("control", {"what": "returned lines / pushes / counters differ from the documented effect of stop, skip, advance or last (executable model Match/Ctl.v, "
                                           "whose behaviour theorems C13_* characterise)", "case": c, "more": [describe(jobs[i], res[i]) for i in other[1:4]]})
     fired = {repr(j[:4]) for j, o in zip(jobs, res) if not o["exc"] and (o["stopped"] or any(True for _ in o["vars"]))}
+    # the translator tie: Scanner.includes / Scanner.is_last as written in the source of the tree under test, regenerated and
+    # (when the text differs from the checked-in Scan/ScanSrc.v) re-proved equal to the model
+    import srctie
+    tie = srctie.check(ctx)
+    if tie["status"] in ("untranslatable", "unproved") and not ctx.violations:
+        ctx.violation("source-tie", {"what": "the translation of Scanner.is_last from csvpath/scanning/scanner.py is no longer proved equal to the model: theorem is_last_src_eq (C13_is_last_source) "
+                                             "does not check against the source of this tree; the generated cases of this run found no input on which the property fails",
+                                     "theorem": "is_last_src_eq (C13_is_last_source)", "tie": tie}, no_input=True)
     ctx.coverage.update({
         "evaluations": len(jobs), "distinct_nontrivial": len(fired),
         "rule": "enumeration: a control component (12 forms of conditional/unconditional stop, skip, advance(n), last-stop) at every position among 1-4 pushing components, firing line 0..6, "
@@ -222,6 +233,7 @@ def run(ctx):
         "traces_validated_against_impl": len(jobs) - len(clean_bad),
         "correspondence": f"clean model == implementation on {len(jobs) - len(clean_bad)}/{len(jobs)}; with switch skip_last_leaks on: {len(jobs) - len(quirk_bad)}/{len(jobs)}",
     })
+    ctx.coverage["source_tie"] = {"status": tie["status"], "detail": tie["detail"][:400]}
 
 
 def replay(ctx, payload):
